@@ -167,10 +167,6 @@ class C17(Prop):
             return v
         if not sup:
             known = None
-            if kind == 'ct_on_pastified' and (lang.ops_of(f) & set(['next', 's_next'])):
-                g = lang.map_formula(f, lambda h: h[2] if h[0] in ('next', 's_next') else h)
-                if supported(g, kind):
-                    known = 'D-dense-next-pastified'
             v.bad('unsupported-yields-value', '%s [%s]: unsupported construct was not rejected, first evaluation '
                   'returned %r' % (text, kind, r if not isinstance(r, list) else r[:4]), known)
         return v
